@@ -358,4 +358,82 @@ theorem impHom_typed (ncols : Nat) (kinds : Nat → FieldKind) (hkinds : ∀ c, 
     have hcells := cellsE_spec _ E hencV
     simp [typedSpec, timeColumn, hrsD, happ, Except.toOption, Imp.importPart, hr, hgo, Imp.typedPart, hcells, hrsE]
 
+
+/-- **a block that holds a rejected cell makes `import_part` raise** (no subscript out of bounds, no partial result): the
+    importer of column `c`, having consumed acceptable cells `D`, on staging buffers whose column `c` holds a block `E` with
+    at least one cell its validation mode rejects, returns an error — whatever else the block holds and wherever it was cut.
+    For a bool column the error is `Exception` (`raiseNumericException`). -/
+theorem typed_part_rejects (ncols : Nat) (kinds : Nat → FieldKind) (hkinds : ∀ c, c < ncols → KindOK (kinds c))
+    (offs : List Nat) (inds : List (List Nat)) (vals : List Nat) (maxrow c : Nat) (D E : List Bytes) (hc : c < ncols)
+    (hsh : Shape ncols maxrow offs inds vals) (hcol : ColOK offs inds vals c E)
+    (hcaps : offAt offs c + E.flatten.length < offAt offs (c + 1))
+    (hD : ∀ cell ∈ D, cellOK (kinds c) cell) (hE : ¬ ∀ cell ∈ E, cellOK (kinds c) cell) :
+    ∃ e, Imp.importPart (typedF kinds c D) inds vals offs c E.length = .error e ∧
+      (∀ mode invalid, kinds c = .bool mode invalid → e = .other "Exception") := by
+  obtain ⟨r, hr⟩ : ∃ r, inds[c]? = some r := by obtain ⟨⟨r, hr, _⟩, _⟩ := hcol; exact ⟨r, hr⟩
+  have hgo : getE offs c "column_offsets[col_idx]" = .ok (offAt offs c) :=
+    getE_eq_ok.mpr (offs_get hsh.offsLen (by omega))
+  have hle : offAt offs (c + 1) ≤ vals.length := Nat.le_trans (hsh.mono_le ncols (c + 1) (by omega) (Nat.le_refl _)) hsh.last
+  have hencV := encodes_of_colOK hsh hc hcol hr hcaps vals.length (by omega)
+  have hKind := hkinds c hc
+  unfold typedF
+  generalize kinds c = k at hD hE hKind ⊢
+  cases k with
+  | indexed => exact absurd (fun _ _ => trivial) hE
+  | fixed n => exact absurd (fun _ _ => trivial) hE
+  | categorical cats => exact absurd (fun _ _ => trivial) hE
+  | leaky cats => exact absurd (fun _ _ => trivial) hE
+  | bool mode invalid =>
+    obtain ⟨rD, hrD⟩ := numericColumn_some_of_all mode invalid (D.map boolClass)
+      (by intro x hx; obtain ⟨cell, hcell, rfl⟩ := List.mem_map.mp hx; exact hD cell hcell)
+    have hbt := Exetera.Props.C06.bool_transform_spec (chunkOf r vals (offAt offs c) vals.length E.length) mode invalid E hencV
+    cases hrE : numericColumn mode invalid (E.map boolClass) with
+    | some rE =>
+      exfalso
+      apply hE
+      intro cell hcell
+      exact numericColumn_all_of_some _ _ _ rE hrE _ (List.mem_map_of_mem hcell)
+    | none =>
+      rw [hrE] at hbt
+      refine ⟨.other "Exception", ?_, fun _ _ _ => rfl⟩
+      simp [typedSpec, hrD, Imp.importPart, hr, hgo, Imp.typedPart, hbt]
+  | numeric p mode it iv =>
+    obtain ⟨rD, hrD⟩ := numericColumn_some_of_all mode iv ((D.map rstripNul).map (classOf p.parse))
+      (by
+        intro x hx
+        obtain ⟨t, ht, rfl⟩ := List.mem_map.mp hx
+        obtain ⟨cell, hcell, rfl⟩ := List.mem_map.mp ht
+        exact hD cell hcell)
+    have htab := Exetera.Props.C06.validation_mode_table p.parse mode it iv hKind.1 hKind.2 E
+    have hcells := cellsE_spec _ E hencV
+    cases hrE : numericColumn mode iv ((E.map rstripNul).map (classOf p.parse)) with
+    | some rE =>
+      exfalso
+      apply hE
+      intro cell hcell
+      exact numericColumn_all_of_some _ _ _ rE hrE _ (List.mem_map_of_mem (List.mem_map_of_mem hcell))
+    | none =>
+      rw [hrE] at htab
+      cases htn : transformNum p.parse mode it iv E with
+      | ok x => rw [htn] at htab; simp [Except.toOption] at htab
+      | error e =>
+        refine ⟨e, ?_, fun _ _ h => by cases h⟩
+        simp only [typedSpec, hrD, Option.map_some, Option.getD_some, Imp.importPart, hr, hgo, Imp.typedPart, hcells, htn]
+  | datetime =>
+    obtain ⟨rsD, hrsD⟩ := cellsMapE_ok_of_all datetimeCell D hD
+    have hcells := cellsE_spec _ E hencV
+    cases hm : cellsMapE datetimeCell E with
+    | ok rs => exact absurd (cellsMapE_all_of_ok _ _ rs hm) hE
+    | error e =>
+      refine ⟨e, ?_, fun _ _ h => by cases h⟩
+      simp [typedSpec, timeColumn, hrsD, Except.toOption, Imp.importPart, hr, hgo, Imp.typedPart, hcells, hm]
+  | date =>
+    obtain ⟨rsD, hrsD⟩ := cellsMapE_ok_of_all dateCell D hD
+    have hcells := cellsE_spec _ E hencV
+    cases hm : cellsMapE dateCell E with
+    | ok rs => exact absurd (cellsMapE_all_of_ok _ _ rs hm) hE
+    | error e =>
+      refine ⟨e, ?_, fun _ _ h => by cases h⟩
+      simp [typedSpec, timeColumn, hrsD, Except.toOption, Imp.importPart, hr, hgo, Imp.typedPart, hcells, hm]
+
 end Exetera.Csv
